@@ -10,7 +10,6 @@ import (
 	"testing"
 	"time"
 
-	"github.com/gobwas/ws"
 	"github.com/gobwas/ws/wsutil"
 	"google.golang.org/grpc"
 	"google.golang.org/grpc/codes"
@@ -121,7 +120,7 @@ func TestSmoke(t *testing.T) {
 		t.Fatalf("want EOF got %v", err)
 	}
 	// websocket
-	conn, _, _, err := ws.Dial(ctx, "ws://"+srv.Addr+"/v1/ws/room1")
+	conn, err := wire.WSDial(ctx, "ws://"+srv.Addr+"/v1/ws/room1", nil)
 	if err != nil {
 		t.Fatal(err)
 	}
